@@ -5,7 +5,15 @@ from rules import exec_rules as X
 from sa.loader import Repo
 from sa.report import Check
 
-EXPLANATION = "HOOK-ONCE (path-count of hook discharges on typed CFGs of the operation entry points)."
+EXPLANATION = (
+    "HOOK-ONCE (path count {0,1,>=2} of async_work_finished discharges on typed CFGs of the operation entry "
+    "points, exceptional edges from interprocedural may-raise summaries), FIN-CLEANUP (cleanup "
+    "must-pass-through in _subscribe / aclosing / async iterator completion), TRACK-BEFORE-AWAIT (futures "
+    "registered before the first suspension point), CANCEL-SETTLE (cancelled tasks are awaited before the "
+    "caller is released), CLEANUP-GATHER (no fail-fast gather on cleanup paths), ABORT-RESULT-USED (the "
+    "asynchronous remainder of an abort is never discarded), TWIN-HANDLERS (sync/async twins wrap the same "
+    "exception classes)."
+)
 LEVEL_TEXT = "Static decision of cleanup pairing on all paths; quiescence under every schedule is not decided."
 LEVEL_NOTE = "Trusted: CPython ast; may-raise summaries over explicit raises (calls through unresolved callables are assumed not to raise)."
 TECHNIQUE = "typed-CFG path counting with interprocedural may-raise summaries (static analysis)"
@@ -13,3 +21,11 @@ TECHNIQUE = "typed-CFG path counting with interprocedural may-raise summaries (s
 
 def run(check: Check, repo: Repo, tier: str) -> None:
     X.hook_once(check, repo)
+    mods = repo.package_modules("execution") + [repo.mod("pyutils.gather_with_cancel"), repo.mod("pyutils.abort_signal"),
+                                                repo.mod("pyutils.async_reduce")]
+    X.fin_cleanup(check, repo)
+    X.track_before_await(check, repo, mods)
+    X.cancel_settle(check, repo, mods)
+    X.cleanup_gather(check, repo, mods)
+    X.abort_result_used(check, repo, mods)
+    X.twin_handlers(check, repo, repo.package_modules('execution'))
